@@ -144,6 +144,12 @@ func (s *grpcServer) GetCapabilities(ctx context.Context,
 
 // Return an error if `hash` is not a valid cache key.
 func (s *grpcServer) validateHash(hash string, size int64, logPrefix string) error {
+	if size < int64(0) {
+		msg := "Invalid negative blob size"
+		s.accessLogger.Printf("%s %s: %s", logPrefix, hash, msg)
+		return status.Error(codes.InvalidArgument, msg)
+	}
+
 	if size == int64(0) {
 		if hash == emptySha256 {
 			return nil
